@@ -70,7 +70,8 @@ seq_t dtw_distance{{ suffix }}{{ suffix2 }}(seq_t *s1, idx_t l1,
         }
         {%- if "euclidean" == inner_dist %}
         {%- else %}
-        max_dist = pow(max_dist, 2);
+        // sqrt followed by pow can round below the exact sum, keep the bound an upper bound
+        max_dist = pow(max_dist, 2) * (1 + 4*DBL_EPSILON);
         {%- endif %}
     } else if (max_dist == 0) {
         max_dist = INFINITY;
